@@ -678,6 +678,71 @@ def rh_cfg(label, dev=(), invs=("RefusedBeforeAnyByte", "HeadIsExactly", "HopByH
     return cfg
 
 
+def c09_concurrent(ctx):
+    """a real threaded server answers requests of several clients at the same time (the application computes for a few
+    milliseconds per request, so handler threads are pre-empted inside their responses): every response carries its own
+    status line, header lines and body only.  Judged by specs/ConcHeadTrace.tla."""
+    import threading
+    from drivers import realproc as rp
+    nclients, per = (8, 60) if ctx.quick else (8, 400)
+    traces = []
+    for wk, threads in (("gthread", 8),) if ctx.quick else (("gthread", 8), ("gthread", 3), ("gevent", None), ("eventlet", None)):
+        s = rp.Server(wk, workers=1, threads=threads, args=["--keep-alive", "5"], name="c09c")
+        evs = [[] for _ in range(nclients)]
+        try:
+            s.start()
+            s.wait_booted(1)
+
+            def client(ci):
+                c = None
+                for k in range(per):
+                    rid = "c%dn%d" % (ci, k)
+                    try:
+                        if c is None:
+                            c = s.connect(timeout=10)
+                        c.sendall(("GET /hid?id=%s&n=120&spin=4 HTTP/1.1\r\nHost: h\r\n\r\n" % rid).encode())
+                        buf = b""
+                        while b"\r\n\r\n" not in buf:
+                            d = c.recv(65536)
+                            if not d:
+                                raise OSError("closed")
+                            buf += d
+                        head, _, rest = buf.partition(b"\r\n\r\n")
+                        lines = head.decode("latin-1").split("\r\n")
+                        want = len("id=%s" % rid)
+                        while len(rest) < want:
+                            d = c.recv(65536)
+                            if not d:
+                                break
+                            rest += d
+                        own = [x for x in lines[1:] if x.startswith("X-R%s-" % rid)]
+                        foreign = [x for x in lines[1:] if x.startswith("X-R") and not x.startswith("X-R%s-" % rid)]
+                        evs[ci].append({"e": "resp", "same": lines[0] == "HTTP/1.1 200 R%s" % rid, "foreign": len(foreign),
+                                        "missing": 120 - len(own), "body_same": rest[:want] == ("id=%s" % rid).encode()})
+                    except OSError:
+                        if c is not None:
+                            c.close()
+                        c = None
+                if c is not None:
+                    c.close()
+            ths = [threading.Thread(target=client, args=(i,)) for i in range(nclients)]
+            [t.start() for t in ths]
+            [t.join() for t in ths]
+        finally:
+            s.cleanup()
+        for ci in range(nclients):
+            traces.append(({"ev": evs[ci]}, {"wk": wk, "threads": threads, "client": ci, "responses": len(evs[ci])}))
+    if sum(m["responses"] for _, m in traces) < nclients * per // 2:
+        raise RuntimeError("concurrent-head run got only %d responses" % sum(m["responses"] for _, m in traces))
+    verdicts, stats = tlc.validate_batch("ConcHeadTrace", "ConcHeadTrace.cfg", [t for t, _ in traces], name="ConcHeadTrace_C09")
+    ctx.add_traces(len(traces), stats)
+    ctx.coverage["concurrent_responses_real_server"] = sum(m["responses"] for _, m in traces)
+    for (t, m), (v, step) in zip(traces, verdicts):
+        if v != "ok":
+            ctx.violation("C09/%s/real-concurrent,wk=%s" % (v, m["wk"]), "%s: %s event %d of this client: %s"
+                          % (v, m, step, t["ev"][step - 1]), {"trace": t, "meta": m})
+
+
 def c09(ctx):
     rng = ctx.rng
     r = tlc.run("RespHead", rh_cfg("design"), name="RespHead_design", workers=12, timeout=1200)
@@ -723,6 +788,7 @@ def c09(ctx):
             tr, m = c09_exchange(case, rng, kind=rng.choice(["sync", "gthread", "async"]))
             traces.append(tr)
             metas.append(m)
+    c09_concurrent(ctx)
     verdicts, stats = tlc.validate_batch("RespHeadTrace", "RespHeadTrace.cfg", traces, name="RespHeadTrace_C09", chunk=5000)
     ctx.add_traces(len(traces), stats)
     for t, m, (v, step) in zip(traces, metas, verdicts):
